@@ -295,3 +295,139 @@ theorem readDuration_frames (s : MmlState) (hs : Sane s) (l1 : List Nat) (hl : s
   rw [bind_ok (dotsLoop_spec k _ _ (adv s (1 + n)) t hsuf hv (Int.ediv_nonneg hv (by omega)) hb), run_pure, adv_adv]
 
 end Ctrmml.Mml
+
+namespace Ctrmml.Mml
+open Ctrmml.Tables Ctrmml.Lexer Ctrmml.TrackBuilder
+open Ctrmml.MmlMeaning (Num Dur Acc Cmd Simple dotsBytes)
+
+/-! ### rendered durations -/
+
+def numBase (n : Num) : Nat := if n.hex then 16 else 10
+def NumRange (n : Num) : Prop := -2147483648 ≤ n.v ∧ n.v ≤ 2147483647
+
+/-- what `read_duration` looks at behind a rendered duration: behind a number (no dots) the next
+byte must not continue the number; behind dots (or a number) it must not be another dot; a
+duration that is not written at all (`dflt 0`) makes `get_num` skip blanks and try to read a
+number, so the rest of the line must not offer one (nor a `:` or, behind the blanks, a dot) -/
+def DurTail : Dur → List Nat → Prop
+  | .dflt 0, tail => (numSpan tail).1 = none ∧ (tail.drop (numSpan tail).2).head? ≠ some 46 ∧ tail.head? ≠ some 58
+  | .dflt (_ + 1), tail => tail.head? ≠ some 46
+  | .len n 0, tail => NumEnd (numBase n) tail ∧ tail.head? ≠ some 46
+  | .len _ (_ + 1), tail => tail.head? ≠ some 46
+  | .frames n 0, tail => NumEnd (numBase n) tail ∧ tail.head? ≠ some 46
+  | .frames _ (_ + 1), tail => tail.head? ≠ some 46
+
+/-- bytes consumed beyond the spelling (blanks skipped while looking for a length) -/
+def durSkip : Dur → List Nat → Nat
+  | .dflt 0, tail => (numSpan tail).2
+  | _, _ => 0
+
+/-- the value `read_duration` returns on track `t` -/
+def durVal (t : Track) : Dur → Int
+  | .dflt k => dotsVal k (t.getDuration.toNat : Int) ((t.getDuration.toNat : Int) / 2)
+  | .len n k => dotsVal k ((t.getMeasureLen.toNat : Int) / n.v) ((t.getMeasureLen.toNat : Int) / n.v / 2)
+  | .frames n k => dotsVal k n.v (n.v / 2)
+
+/-- side conditions on the numbers of a duration -/
+def DurNums (t : Track) : Dur → Prop
+  | .dflt k => durVal t (.dflt k) ≤ 2147483647
+  | .len n k => NumRange n ∧ 1 ≤ n.v ∧ durVal t (.len n k) ≤ 2147483647
+  | .frames n k => NumRange n ∧ 0 ≤ n.v ∧ durVal t (.frames n k) ≤ 2147483647
+
+theorem numEnd_dot (base : Nat) (hb : base ≤ 16) (rest : List Nat) : NumEnd base (46 :: rest) := by
+  refine ⟨?_, ?_⟩
+  · intro c hc
+    simp at hc; subst hc
+    unfold digitVal
+    simp only [show ¬ (48 ≤ 46 ∧ 46 ≤ 57) by omega, show ¬ (97 ≤ 46 ∧ 46 ≤ 122) by omega,
+      show ¬ (65 ≤ 46 ∧ 46 ≤ 90) by omega, if_false]
+    have : ¬ 99 < base := by omega
+    simp [this]
+  · intro _ c hc
+    simp at hc; omega
+
+theorem numSpan_dot (rest : List Nat) : numSpan (46 :: rest) = (none, 0) := by
+  unfold numSpan
+  have hk : LineBuffer.countBlanks (46 :: rest) = 0 := by
+    simp [LineBuffer.countBlanks, not_blank_of_range 46 (by omega)]
+  have h46 : ¬ ((46 : Nat) = 36 ∨ (46 : Nat) = 120) := by omega
+  simp only [hk, List.drop_zero, h46, if_false]
+  rw [strtol_pos 10 46 rest (not_space_of_range 46 (by omega)) (by omega) (by omega) (by omega)]
+  have : takeDigits 10 (46 :: rest) = [] := by
+    unfold takeDigits
+    have : digitVal 10 46 = none := by decide
+    simp [this]
+  simp [this, numOut]
+
+theorem numEnd_dots (n : Num) (k : Nat) (tail : List Nat) (h : k = 0 → NumEnd (numBase n) tail) :
+    NumEnd (numBase n) (dotsBytes k ++ tail) := by
+  cases k with
+  | zero => simpa [dotsBytes] using h rfl
+  | succ k =>
+    have : dotsBytes (k + 1) ++ tail = 46 :: (dotsBytes k ++ tail) := by simp [dotsBytes, List.replicate_succ]
+    rw [this]
+    exact numEnd_dot _ (by unfold numBase; split <;> omega) _
+
+/-- a rendered number starts with `$`, `-` or a digit -/
+theorem num_bytes_head (n : Num) : ∃ c r, n.bytes = c :: r ∧ (c = 36 ∨ c = 45 ∨ (48 ≤ c ∧ c ≤ 57) ∨ (97 ≤ c ∧ c ≤ 102)) := by
+  unfold Num.bytes
+  by_cases hh : n.hex = true
+  · exact ⟨36, (if n.v < 0 then [45] else []) ++ MmlMeaning.renderNat 16 n.v.natAbs, by simp [hh], Or.inl rfl⟩
+  · have hh' : n.hex = false := by simpa using hh
+    by_cases hn : n.v < 0
+    · exact ⟨45, MmlMeaning.renderNat 10 n.v.natAbs, by simp [hh', hn], Or.inr (Or.inl rfl)⟩
+    · simp only [hh', hn, Bool.false_eq_true, if_false, List.nil_append]
+      have hsp := natDigits_spec 10 (by omega) (n.v.natAbs + 1) n.v.natAbs (by omega)
+      obtain ⟨d, tl, hd, heq⟩ := digits_head _ [] hsp.2.2
+      have hr := digitChar_range d (by have := hsp.2.1 d hd; omega)
+      refine ⟨MmlMeaning.digitChar d, tl, ?_, Or.inr (Or.inr hr)⟩
+      rw [renderNat_eq]; simpa using heq
+
+theorem readDuration_render (s : MmlState) (hs : Sane s) (d : Dur) (tail : List Nat)
+    (hsuf : suffix s = d.bytes ++ tail) (hn : DurNums (getTrack s) d) (ht : DurTail d tail) :
+    readDuration s = .ok (durVal (getTrack s) d).toNat (adv s (d.bytes.length + durSkip d tail)) := by
+  cases d with
+  | dflt k =>
+    cases k with
+    | zero =>
+      have hsuf' : suffix s = tail := by simpa [Dur.bytes, dotsBytes] using hsuf
+      obtain ⟨h1, h2, h3⟩ := ht
+      have hnum : numSpan (suffix s) = (none, (numSpan tail).2) := by rw [hsuf']; exact Prod.ext h1 rfl
+      have := readDuration_dflt s hs (by rw [hsuf']; exact h3) _ hnum 0 (tail.drop (numSpan tail).2)
+        (by rw [hsuf']; simp) h2 hn
+      simpa [durVal, durSkip, Dur.bytes, dotsBytes] using this
+    | succ k =>
+      have hsuf' : suffix s = 46 :: (List.replicate k 46 ++ tail) := by
+        simpa [Dur.bytes, dotsBytes, List.replicate_succ] using hsuf
+      have hnum : numSpan (suffix s) = (none, 0) := by rw [hsuf']; exact numSpan_dot _
+      have := readDuration_dflt s hs (by rw [hsuf']; simp) 0 hnum (k + 1) tail
+        (by rw [hsuf']; simp [List.replicate_succ]) ht hn
+      simpa [durVal, durSkip, Dur.bytes, dotsBytes] using this
+  | len n k =>
+    obtain ⟨hr, h1, hb⟩ := hn
+    have hend : NumEnd (numBase n) (dotsBytes k ++ tail) := numEnd_dots n k tail (by
+      intro hk; subst hk; exact ht.1)
+    have ht46 : tail.head? ≠ some 46 := by cases k with | zero => exact ht.2 | succ k => exact ht
+    have hsuf' : suffix s = n.bytes ++ (dotsBytes k ++ tail) := by simpa [Dur.bytes] using hsuf
+    have hnum : numSpan (suffix s) = (some n.v, n.bytes.length) := by
+      rw [hsuf']; exact numSpan_render n _ hr.1 hr.2 hend
+    obtain ⟨c, r, hcr, hc⟩ := num_bytes_head n
+    have hl : suffix s = c :: (r ++ (dotsBytes k ++ tail)) := by rw [hsuf', hcr]; rfl
+    have := readDuration_len s hs c _ hl (by omega) n.v n.bytes.length hnum h1 k tail
+      (by rw [hsuf']; simp [dotsBytes]) ht46 hb
+    simpa [durVal, durSkip, Dur.bytes, dotsBytes, Nat.add_assoc] using this
+  | frames n k =>
+    obtain ⟨hr, h1, hb⟩ := hn
+    have hend : NumEnd (numBase n) (dotsBytes k ++ tail) := numEnd_dots n k tail (by
+      intro hk; subst hk; exact ht.1)
+    have ht46 : tail.head? ≠ some 46 := by cases k with | zero => exact ht.2 | succ k => exact ht
+    have hsuf' : suffix s = 58 :: (n.bytes ++ (dotsBytes k ++ tail)) := by simpa [Dur.bytes] using hsuf
+    have hnum : numSpan (n.bytes ++ (dotsBytes k ++ tail)) = (some n.v, n.bytes.length) :=
+      numSpan_render n _ hr.1 hr.2 hend
+    have := readDuration_frames s hs _ hsuf' n.v n.bytes.length hnum h1 k tail (by simp [dotsBytes]) ht46 hb
+    have e : 1 + n.bytes.length + k = (Dur.frames n k).bytes.length + durSkip (Dur.frames n k) tail := by
+      simp [durSkip, Dur.bytes, dotsBytes]; omega
+    rw [e] at this
+    simpa [durVal] using this
+
+end Ctrmml.Mml
